@@ -23,12 +23,14 @@ var zzC10Pool = []zzC10Pat{
 	{p: "/l/it", live: true},
 	{p: "/m/{-g}/t", live: true},
 	{p: "/f/{r:[a-c]+}.h", live: true},
-	{p: "/q/{id:\\d+}", live: true}, // a regexp parameter that ends the pattern (value + suffix may be empty)
-	{p: "/s"},                       // its methods were removed by name; the node stays because /s/j lives below it
-	{p: "/p/a"},                     // exists only as an inner node of the tree (between /p/au and /p/ab)
-	{p: "/zz/{q}"},                  // never registered
-	{p: "/i/{n:digit}"},             // prefix of a live route
-	{p: "/d/{--k}", live: true},     // an ignored parameter whose name starts with '-'
+	{p: "/q/{id:\\d+}", live: true},     // a regexp parameter that ends the pattern (value + suffix may be empty)
+	{p: "/s"},                           // its methods were removed by name; the node stays because /s/j lives below it
+	{p: "/p/a"},                         // exists only as an inner node of the tree (between /p/au and /p/ab)
+	{p: "/zz/{q}"},                      // never registered
+	{p: "/i/{n:digit}"},                 // prefix of a live route
+	{p: "/z/{g:a|ab}/f", live: true},    // an alternation whose first branch is a prefix of the second, then a literal
+	{p: "/y/{l:[a-c]+?}.e", live: true}, // a lazy quantifier in front of a literal suffix
+	{p: "/d/{--k}", live: true},         // an ignored parameter whose name starts with '-'
 	{p: "/{a}/{b}/{a}", malformed: true, keys: []string{"a", "b"}}, // a repeated name that is not adjacent
 	{p: "/{}", malformed: true, keys: []string{"a"}},
 	{p: "/{a}{b}", malformed: true, keys: []string{"a", "b"}},
